@@ -52,12 +52,15 @@ def main():
             axs = assum.get(t)
             if axs is None:
                 continue
-            extra = [a for a in axs if a not in allowed]
+            extra = [a for a in axs if a not in allowed and not a.startswith(C.STDLIB_AXIOM_PREFIXES)]
             if extra:
                 proof_broken = 'theorem %s depends on non-whitelisted axioms %s' % (t, extra)
             else:
                 ctx.discharged.append(t)
-            ctx.assumptions[t] = axs
+            prim = [a for a in axs if a.startswith(C.STDLIB_AXIOM_PREFIXES)]
+            ctx.assumptions[t] = [a for a in axs if a not in prim] + (
+                ['Uint63.* / PrimInt63.* (%d names: the standard library\'s primitive 63-bit integers and their '
+                 'axiomatised specification, through Bignums / Interval)' % len(prim)] if prim else [])
         if not ok and proof_broken is None:
             proof_broken = 'Props_%s.v does not check:\n%s' % (prop, log[-3000:])
         if thorough_coqchk(ctx, prop) is False and proof_broken is None:
